@@ -609,6 +609,10 @@ static Type *func_params(Token **rest, Token *tok, Type *ty) {
   Type *cur = &head;
   bool is_variadic = false;
 
+  // Tags and enumeration constants declared in a parameter list have
+  // function prototype scope, which ends with the declarator.
+  enter_scope();
+
   while (!equal(tok, ")")) {
     if (cur != &head)
       tok = skip(tok, ",");
@@ -643,10 +647,14 @@ static Type *func_params(Token **rest, Token *tok, Type *ty) {
     cur = cur->next = copy_type(ty2);
   }
 
+  Scope *proto_scope = scope;
+  leave_scope();
+
   if (cur == &head)
     is_variadic = true;
 
   ty = func_type(ty);
+  ty->proto_scope = proto_scope;
   ty->params = head.next;
   ty->is_variadic = is_variadic;
   *rest = tok->next;
@@ -3691,7 +3699,14 @@ static Token *function(Token *tok, Type *basety, VarAttr *attr) {
 
   current_fn = fn;
   locals = NULL;
-  enter_scope();
+
+  // The body of a function continues the scope of its parameter list.
+  if (ty->proto_scope) {
+    ty->proto_scope->next = scope;
+    scope = ty->proto_scope;
+  } else {
+    enter_scope();
+  }
   create_param_lvars(ty->params);
 
   // A buffer for a struct/union return value is passed
